@@ -91,15 +91,3 @@ Fixpoint mo_payoff (zero : list Q) (rs : list mo_rule) (a : list nat) : list Q :
 (* u is at least v everywhere and differs somewhere (exact arithmetic) *)
 Definition strictly_dominates (u v : list Q) : bool := vle v u && negb (veqb v u).
 
-(* ---------- UCVE: exact comparison of  x + sqrt p  <=  y + sqrt q  (p, q >= 0) ---------- *)
-(* decided by case analysis on signs and squares, no square root is ever computed *)
-Local Open Scope Q_scope.
-Definition sqrt_sum_le (x p y q : Q) : bool :=
-  let d := y - x in
-  let t := p + q - d * d in
-  if Qle_bool p q then
-    (if Qle_bool 0 d then true else Qle_bool 0 t && Qle_bool (4 * p * q) (t * t))
-  else
-    (if Qle_bool d 0 then false else Qle_bool t 0 || Qle_bool (t * t) (4 * p * q)).
-
-Local Close Scope Q_scope.
